@@ -644,9 +644,13 @@ def check_cases(chk, cases, replay=False):
     if not replay and len(cases) > 1000 and "extraction_crosscheck" not in chk.extra:
         extraction_crosscheck(chk, lines, answers)
 
-    nv_before = {}
-    for (case, res, u), m in zip(flat, models):
-        nv_before.setdefault(id(res), len(chk.violations))
+    last, n_last = None, 0
+    for (case, res, u), m in zip(flat + [(None, None, None)], models + [None]):
+        if last is not None and len(chk.violations) > n_last:
+            last["_filed"] = True
+        last, n_last = res, len(chk.violations)
+        if res is None:
+            break
         c, obs, es = u["view"], u["obs"], u["es"]
         pre = "" if u["n"] == 1 else "[instance %d of %d, outermost first] " % (u["li"] + 1, u["n"])
         cat = _category(c, es)
@@ -776,7 +780,6 @@ def check_cases(chk, cases, replay=False):
                                impl={k: obs.get(k) for k in ("return_value", "builder_scope_not_same_object")},
                                model=None, theorems=THEOREMS_TRACE)
 
-    filed = {id(v["case"]) for v in chk.violations}
     for case, res in zip(cases, results):
         chk.count("fam:" + case.get("fam", "?"))
         chk.count("instances:%d" % len(res["layers"]))
